@@ -9,7 +9,7 @@ from typing import Annotated, Any, Union
 
 ID = "C14"
 LEVEL = "other"
-CONTRACT_MODULES = ["contracts.unions"]
+CONTRACT_MODULES = ["contracts.unions", "contracts.textsplice"]
 EXPLANATION = ("The discriminator branch of _structure_union is verified as a statement contract on one arbitrary iteration of its metadata loop: "
                "(1) the variant handed to converter.structure is exactly mapping[discriminator value] (site assertion); (2) when the payload is a "
                "dict containing the discriminator property and the mapping is non-empty, the iteration never falls through to guessing; (3) every "
